@@ -339,31 +339,34 @@ def rdY (Y : Array (V3 α)) (i : Nat) : Except Err (V3 α) :=
   | some y => .ok y
   | none => .error .indexOOB
 
+/-- the dispatch on `n_points` inside `get_closest_point_to_origin` -/
+def solveSimplex (Y : Array (V3 α)) (nPoints : Nat) : Except Err (CP α) :=
+  if nPoints = 1 then do
+    let y0 ← rdY Y 0
+    pure ⟨y0, 0b0001, 0⟩
+  else if nPoints = 2 then do
+    let y0 ← rdY Y 0
+    let y1 ← rdY Y 1
+    closestPointLine y0 y1
+  else if nPoints = 3 then do
+    let y0 ← rdY Y 0
+    let y1 ← rdY Y 1
+    let y2 ← rdY Y 2
+    closestPointTriangle y0 y1 y2
+  else if nPoints = 4 then do
+    let y0 ← rdY Y 0
+    let y1 ← rdY Y 1
+    let y2 ← rdY Y 2
+    let y3 ← rdY Y 3
+    closestPointTetrahedron y0 y1 y2 y3
+  else .error .assertFail
+
 /-- `get_closest_point_to_origin(Y, n_points, prev_v_len_sqr)` -/
 def getClosestPointToOrigin (Y : Array (V3 α)) (nPoints : Nat) (prevVLenSqr : α) :
-    Except Err (Gcp α) := do
-  let r : CP α ←
-    if nPoints = 1 then do
-      let y0 ← rdY Y 0
-      pure ⟨y0, 0b0001, 0⟩
-    else if nPoints = 2 then do
-      let y0 ← rdY Y 0
-      let y1 ← rdY Y 1
-      closestPointLine y0 y1
-    else if nPoints = 3 then do
-      let y0 ← rdY Y 0
-      let y1 ← rdY Y 1
-      let y2 ← rdY Y 2
-      closestPointTriangle y0 y1 y2
-    else if nPoints = 4 then do
-      let y0 ← rdY Y 0
-      let y1 ← rdY Y 1
-      let y2 ← rdY Y 2
-      let y3 ← rdY Y 3
-      closestPointTetrahedron y0 y1 y2 y3
-    else .error .assertFail
-  let vLenSq := V3.dot r.pt r.pt
-  .ok ⟨decide (vLenSq < prevVLenSqr), r.pt, vLenSq, r.set, 1000 * nPoints + r.br⟩
+    Except Err (Gcp α) :=
+  (solveSimplex Y nPoints).bind fun r =>
+    let vLenSq := V3.dot r.pt r.pt
+    .ok ⟨decide (vLenSq < prevVLenSqr), r.pt, vLenSq, r.set, 1000 * nPoints + r.br⟩
 
 end Simplex
 end D3
